@@ -27,4 +27,4 @@ For each change k in 1..3 create a directory /tmp/{outdir}/{pid}/k/ containing:
 
 Procedure for each change: (1) make the edit in the worktree; (2) run the full test suite - it must still pass completely (123 tests; if any test fails, choose a different change); (3) run your demo - it must fail; (4) save the diff; (5) revert the worktree with `git -C /tmp/wt/{pid}{sfx} checkout -- .` ; (6) run the demo again on the clean tree - it must pass. Leave the worktree clean (no uncommitted changes) when you are done. Do not commit anything. Note that the unmodified tree may itself violate the property in some corner cases; place your changes where the clean tree behaves correctly so that your demo passes on the clean tree.
 
-Finish with a short report listing, for each of the three changes: the summary, what is needed for it to manifest, and confirmation of steps 2, 3 and 6.""")
+Finish with a short report listing, for each of the three changes: the summary, what is needed for it to manifest, and confirmation of steps 2, 3 and 6. If, while working, you noticed inputs for which the UNMODIFIED tree itself violates the property, list them briefly (input + what goes wrong) under a heading "Observations on the clean tree".""")
